@@ -198,8 +198,7 @@ def main(tier, seed):
     t0 = time.time()
     # ---- R3
     specs = kernel_specs(tier, seed)
-    with multiprocessing.get_context("fork").Pool(6) as pool:
-        outs = pool.map(real_job, specs, chunksize=1)
+    outs = lc.pool_map(real_job, specs, 6)
     cases, meta = [], {}
     for o in outs:
         if o.get("machinery"):
